@@ -4,7 +4,7 @@ from sa import paths as P
 from sa import ring as R
 from . import common as K
 
-CONFIGS_QUICK = ["A", "B"]
+CONFIGS_QUICK = ["A", "B", "E"]
 CONFIGS_THOROUGH = ["A", "B", "C", "D", "E"]
 
 EXPLANATION = (
@@ -31,6 +31,7 @@ RULES = {
     "C10-Q4": "device-dependent text ownership: no leak, no double release, no use after release on any path (typestate)",
     "C10-Q5": "the new error is queued whether or not duplicating its text succeeded",
     "C10-Q6": "SCPI_ErrorPop presets (0, NULL) before removing from the queue",
+    "C10-Q7": "the library's own text duplicator (OUR_strndup, builds without strndup) writes only inside the object it allocated",
 }
 
 FREE_CALLS = {"free": 0, "scpiheap_free": 1}
@@ -422,6 +423,7 @@ def rule_q3_q5_q6(ck, prog, S, cfg):
 
 
 def run(ck, fb, tier):
+    seen_dup = False
     for cfg in fb.configs:
         ck.config = cfg
         prog = fb[cfg]
@@ -430,6 +432,12 @@ def run(ck, fb, tier):
             rule_q1_q2(ck, prog, S)
         rule_q3_q5_q6(ck, prog, S, cfg)
         rule_q4(ck, prog, S, cfg)
+        if prog.fn("OUR_strndup") is not None:
+            from . import boundsrules as BR
+            BR.check_function(ck, prog, "C10-Q7", "OUR_strndup", min_sites=2)
+            seen_dup = True
+    if "E" in fb.configs and not seen_dup:
+        ck.anchor_lost("C10-Q7", "OUR_strndup is not compiled in the -std=c89 configuration")
     ck.assume("queue capacity >= 1 (the property's precondition); on the fifo_add failure edge the queue is full, hence "
               "non-empty, so the unchecked fifo_remove_last yields an entry")
     ck.trust("free/strndup contracts of libc")
